@@ -291,7 +291,12 @@ fn decompress_multiple_internal(
         monitor.check_progress(current_data.len() as u64)?;
     } else if has_bzip2 {
         log::debug!("Decompressing BZip2");
-        current_data = algorithms::bzip2::decompress(&current_data, expected_size * 4)?;
+        // An intermediate stage (ADPCM or PKWare follows): its output size is only bounded
+        current_data = if has_adpcm || has_pkware {
+            algorithms::bzip2::decompress_up_to(&current_data, expected_size * 4)?
+        } else {
+            algorithms::bzip2::decompress(&current_data, expected_size * 4)?
+        };
         monitor.check_progress(current_data.len() as u64)?;
     } else if has_sparse {
         log::debug!("Decompressing Sparse");
